@@ -294,7 +294,8 @@ class Run:
         suffix = os.environ.get("VERIF_EVIDENCE_SUFFIX", "")   # seeded-change runs keep the real evidence intact
         evdir = os.path.join(VERIF, "evidence") if not suffix else os.path.join(VERIF, ".work", "evidence" + suffix)
         os.makedirs(evdir, exist_ok=True)
-        json.dump(ev, open(os.path.join(evdir, self.prop + ".json"), "w"), indent=1, default=str)
+        if not getattr(self, "is_replay", False):      # replaying one stored case must not replace the evidence of a full run
+            json.dump(ev, open(os.path.join(evdir, self.prop + ".json"), "w"), indent=1, default=str)
         if self.drift:
             log("NOTE property=%s model drift: %d recorded step(s) differ from the operational model although "
                 "no clause of the property failed there (not a verdict)" % (self.prop, self.drift))
